@@ -858,9 +858,15 @@ static void do_run(State &st, Prog *pp, CodeObj *co, const std::string &mode_s, 
     // subject, not a history/fault/placement effect -- and is only counted.
     const Func &fn = pp ? pp->fn : co->fn;
     uint64_t ph = 0;
-    if (pristine_native_hash(meta.spec, fn.target, fn.fmask, act.n, ds, ph) && ph == oh) {
+    int pst = pristine_native_hash(meta.spec, fn.target, fn.fmask, act.n, ds, ph);
+    if (pst == 2 || (pst == 1 && ph == oh)) {
       c.count("probe.native_vs_emulation_defect_confirmed_in_pristine_process");
       c.event("  (native != emulation also in a pristine process: not this property's subject)");
+      diff.clear();
+    } else if (pst < 0) {
+      // the helper process could not be run (three attempts): nothing can be concluded about this disagreement
+      c.count("probe.pristine_helper_unavailable");
+      c.note("pristine helper unavailable: " + g_pristine_diag);
       diff.clear();
     }
   }
